@@ -30,6 +30,9 @@ def install(eng):
     eng.enumerator("config-scripts", ["C20"], CONF, lambda seed, focus: enum_conf.replay(None, focus, None, seed))
     eng.enumerator("cli-status-dryrun-run", ["C02", "C05", "C06", "C10"],
                    SCHED + CALLBACKS + ["gwf.plugins.run:run", "gwf.plugins.status:status"] + FILTERS, enum_cli.run_c05)
+    # C06, second sentence (exact re-submission set after one change): no lemma generated, decided by this stand-in
+    eng.enumerator("cli-rerun-after-one-change", ["C06"], SCHED + CALLBACKS + ["lemma:c06_convergence"], enum_cli.run_c06,
+                   always=True)
     eng.enumerator("cli-interrupted-run", ["C09"], SCHED + CALLBACKS + BACKEND + ["gwf.plugins.run:run"], enum_cli.run_c09)
     HASHES = [k for k in eng.contracts if "SpecHashes" in k or k in ("gwf.core:get_spec_hashes", "gwf.core:hash_spec")]
     eng.enumerator("cli-spec-hashes", ["C18"], HASHES + CALLBACKS + ["gwf.plugins.run:run", "gwf.plugins.touch:touch",
